@@ -409,7 +409,10 @@ def judge_pickle(case):
         elif op[0] == "prep":
             sut(setup.detrend_data) if op[2] == "detrend" else sut(setup.decimate_data, q=2)
     with tempfile.TemporaryDirectory() as d:
-        path = os.path.join(d, "setup.pkl")
+        # the file name is the user's: with or without an extension, with dots in it
+        fname = ["setup.pkl", "setup_backup", "run.2024.dat", "results"][len(case["ops"]) % 4]
+        j.tag("file=" + fname)
+        path = os.path.join(d, fname)
         # an earlier state saved to (and loaded from) the same path must not shadow the later one
         early = _new_setup(kind, case.get("seed", 7))
         sut(gen.save_to_file, early, path)
